@@ -557,6 +557,7 @@ def main(tier, seed):
         ("same_name_two_libraries", {"": "from library import m\nfrom library import n\nm.show()\nn.show()\n",
                                      "m": "@constexpr\ndef scale(x):\n    return x * 10\ndef show():\n    d5.Setting = scale(3)\n",
                                      "n": "@constexpr\ndef scale(x):\n    return x - 1\ndef show():\n    d4.Setting = scale(3)\n"}, "s d5 Setting 30\ns d4 Setting 2"),
+        ("evaluated_once", "@constexpr\ndef cnt(x, acc=[]):\n    acc.append(x)\n    return len(acc)\nd5.Setting = cnt(5)\n", "s d5 Setting 1"),
         ("unused_constexpr_emits_nothing", "@constexpr\ndef f(a):\n    return a\nd5.Setting = 1\n", "s d5 Setting 1"),
         ("hash_is_signed_crc", "@constexpr\ndef f(a):\n    return HASH(a)\nd5.Setting = f('StructureWallLight')\n", f"s d5 Setting {ic10.signed_crc('StructureWallLight')}"),
         ("bool_result", "@constexpr\ndef f(a):\n    return a > 3\nd5.Setting = f(6)\nd4.Setting = f(1)\n", "s d5 Setting 1\ns d4 Setting 0"),
